@@ -403,10 +403,8 @@ func runC09(c *core.Ctx) {
 								seenDec = true
 							}
 							if call, isC := ins.(*ssa.Call); isC && seenDec && len(call.Call.Args) > 0 {
-								if core.FieldKey(call.Call.Args[0]) == "DefaultWorkerPool.spawnWorkerCh" {
-									if g := core.Callee(&call.Call); g != nil && chanSends(g) {
-										woke = true
-									}
+								if c09wakes(p, &call.Call, 0) {
+									woke = true
 								}
 								if g := core.Callee(&call.Call); g != nil && core.FuncName(g) == "worker.DefaultWorkerPool.notifyWorkers" {
 									// conditional notifier: acceptable only if its condition includes queued jobs; treated as a wake-up
@@ -550,13 +548,7 @@ func runC09(c *core.Ctx) {
 			}
 			// the spawn loop is told about the accepted job: a wake-up deferred before the offer, or posted after it
 			// on every path that accepted the job
-			isWake := func(cc *ssa.CallCommon) bool {
-				if len(cc.Args) == 0 || core.FieldKey(cc.Args[0]) != "DefaultWorkerPool.spawnWorkerCh" {
-					return false
-				}
-				g := core.Callee(cc)
-				return g != nil && chanSends(g)
-			}
+			isWake := func(cc *ssa.CallCommon) bool { return c09wakes(p, cc, 0) }
 			woken := false
 			core.Instrs(sched, func(ins ssa.Instruction) {
 				if d, isD := ins.(*ssa.Defer); isD && isWake(&d.Call) && core.InstrDominates(d, offer) {
@@ -727,4 +719,29 @@ func runC09(c *core.Ctx) {
 		})
 		c.Check(min == 1 && max == 1 && argOK && nS == 1, "R4", "DefaultInvokable."+name, p.Pos(f.Pos()), "schedules one job that calls callee(val) exactly once", fmt.Sprintf("the scheduled job calls the callee %d..%d times / not with val (%v) / scheduled %d times", min, max, argOK, nS))
 	}
+}
+
+
+// c09wakes: the call posts a spawn-loop wake-up - a send on the pool's spawn-request channel, or a method of the pool that
+// does so on every one of its paths (a `wakeSpawnLoop()` helper).
+func c09wakes(p *core.Prog, cc *ssa.CallCommon, depth int) bool {
+	if len(cc.Args) == 0 {
+		return false
+	}
+	g := core.Callee(cc)
+	if core.FieldKey(cc.Args[0]) == "DefaultWorkerPool.spawnWorkerCh" {
+		return g != nil && chanSends(g)
+	}
+	if g == nil || depth > 2 || g.Pkg != p.Worker || g.Signature.Recv() == nil || len(g.Blocks) == 0 {
+		return false
+	}
+	min, _ := core.PathCount(g, func(ins ssa.Instruction) int {
+		if ci, ok := ins.(ssa.CallInstruction); ok {
+			if _, isGo := ins.(*ssa.Go); !isGo && c09wakes(p, ci.Common(), depth+1) {
+				return 1
+			}
+		}
+		return 0
+	}, nil)
+	return min >= 1
 }
